@@ -24,7 +24,7 @@ structure SWatcher where
   kind : String                      -- "mcaller" | "bound"
   owner : Nat
   method : String
-  changed : Option (List String)
+  changed : Option (List (String × Option (List String)))
   precedence : Int
   deriving DecidableEq, Repr
 
@@ -32,7 +32,7 @@ structure SDyn where
   inst : Nat
   owner : Nat
   method : String
-  changed : Option (List String)
+  changed : Option (List (String × Option (List String)))
   /-- an equal watcher is still registered on `inst` (what `unwatch` will look for) -/
   found : Bool
   deriving DecidableEq, Repr
@@ -188,6 +188,13 @@ def objOKB (no nc : Nat) (ob : Obj) : Bool :=
 
 /-- every reference of every object points into the world -/
 def wfB (w : World) : Bool := w.objs.all (objOKB w.objs.length w.cells.length)
+
+/-- every watcher registered on object `i` has `inst = i` -/
+def ownWatchersB (w : World) : Bool :=
+  (List.range w.objs.length).all fun i =>
+    match w.objs[i]? with
+    | some ob => ob.watchers.all fun kv => kv.2.all fun wt => wt.inst == i
+    | Option.none => true
 
 /-! ### the oracle -/
 
